@@ -20,7 +20,8 @@ Inductive val :=
                                                (Events/Grammar.v: pl = (thread_no, task_no),
                                                info = (event, file_name, line_no)) *)
 | VKey (prefix : string) (z : Z)            (* f"{prefix}{z}" *)
-| VTup (l : list Z)                         (* tuple / list of numbers *)
+| VTup (l : list Z)                         (* tuple of numbers (immutable) *)
+| VList (l : list Z)                        (* list of numbers (a fresh local list; never stored, never aliased) *)
 | VRec (cls : string) (fs : list (string * val)).   (* dataclass instance: tracked fields, definition order *)
 
 Inductive exn := KeyError | ValueError | AssertionError.
@@ -35,7 +36,8 @@ Inductive expr :=
 | ESelf (a : string)                        (* self.a   (value attribute) *)
 | ETuple1 (e : expr)                        (* (e,) *)
 | EConcat (a b : expr)                      (* tuple + tuple *)
-| ESeqCopy (e : expr)                       (* list(e) / tuple(e) *)
+| EListOf (e : expr)                        (* list(e) *)
+| ETupleOf (e : expr)                       (* tuple(e) *)
 | EEq (a b : expr)                          (* a == b *)
 | ENe (a b : expr)                          (* a != b *)
 | EIs (a b : expr)                          (* a is b      (identity) *)
@@ -46,7 +48,7 @@ Inductive expr :=
 | EDictGet (a : string) (k d : expr)        (* self.a.get(k, d);  .get(k) has d = None *)
 | EDictIdx (a : string) (k : expr)          (* self.a[k]   -- KeyError *)
 | EFKey (prefix : string) (e : expr)        (* f"{prefix}{e}" *)
-| EFilter (x : string) (src c : expr)       (* (x for x in src if c), inside tuple() / list(), or [x for x in src if c] *)
+| EFilter (x : string) (src c : expr)       (* [x for x in src if c]; as a generator only directly inside tuple() / list() *)
 | ELen (e : expr)                           (* len(e) *)
 | ENew (cls : string) (fs : list (string * expr))     (* Cls(f=e, ...), defaults filled in *)
 | EReplace (e : expr) (fs : list (string * expr)).    (* dataclasses.replace(e, f=e', ...) *)
